@@ -10,6 +10,7 @@
 //! tools/check.py.
 
 mod common;
+mod credit;
 mod session;
 
 use common::Opts;
@@ -58,6 +59,7 @@ fn main() {
     }
     match args[1].as_str() {
         "session" => session::main(&opts),
+        "credit" => credit::main(&opts),
         other => {
             eprintln!("unknown module {}", other);
             std::process::exit(64);
